@@ -6,6 +6,7 @@ import SdJwt.Lemmas.EndToEnd
 import SdJwt.Lemmas.Example
 import SdJwt.Lemmas.IssuedPaths
 import SdJwt.Lemmas.Defined
+import SdJwt.Lemmas.CodecL
 /-!
 # C01 — issuance round trip returns exactly the original claims and their paths
 
@@ -338,3 +339,39 @@ theorem C01_valid_marking_round_trip (rt : Rt) (mk : Nat → Option String → J
     simpa [List.map_map, Function.comp_def] using this
   exact h2.trans h1
 
+
+
+/-- **C01 down to the bytes of the disclosures.** `C01_end_to_end` with the disclosure strings
+written out as the crate makes them: the `i`-th disclosure is the base64url (`Impl/Base64.lean`) of
+the JSON text of `[salt i, name, value]` / `[salt i, value]`, its digest the base64url of SHA-256
+over that string, and the holder starts by base64url-decoding each string. What `C01_end_to_end`
+assumed of the strings (each decodes to the disclosure it was made from, hashes to the embedded
+digest, holds no `~`) is proved here from the base64url round trip (`B64.dec_enc`), the alphabet
+lemma (`B64.enc_no_tilde`) and one assumption on the JSON text codec: the parser reads back what the
+printer wrote (`hc`). Still assumed: pairwise different digests (`hnd`), a JWT library that returns
+what was signed (`hsig`) and a JWT without `~` (`hj`). The strings may be presented in any order
+(`hperm`). -/
+theorem C01_end_to_end_bytes (c : Codec) (salt : Nat → String)
+    (decodeClaims : String → Option J) (jwtDecode : String → Outcome (J × J))
+    (kbDecode : String → J → Outcome (J × J))
+    (paths : List String) (addr : List (List String × String)) (ms : MMems) (Tn : MJ)
+    (ds : List SDisc) (decoys : Option (List String)) (cnf : Option MJ) (jwt : String) (header : J)
+    (strs : List String)
+    (wf : (MJ.obj ms none).WF) (hplain : (MJ.obj ms none).digests = [])
+    (hk1 : "_sd_alg" ∉ ms.keys) (hk2 : "cnf" ∉ ms.keys)
+    (hp : ParsedAll paths addr)
+    (h : markAll (c.digestFn "sha-256" salt) 0 addr (.obj ms none) = some (Tn, ds)) (hne : ds ≠ [])
+    (hdec : ∀ l, decoys = some l → l.Nodup ∧ (∀ g ∈ l, g ∉ Tn.digests))
+    (hX : ∀ X, cnf = some X → X.WF ∧ X.digests = [])
+    (hsig : ∀ payload dsrc,
+      encode (MJ.obj ms none).payload paths (c.digestFn "sha-256" salt) decoys (cnf.map (·.payload)) =
+        .ok (payload, dsrc) → jwtDecode jwt = .ok (header, payload))
+    (hc : ∀ j, c.parse (c.render j) = some j)
+    (hperm : strs.Perm (c.wireStrs salt 0 ds))
+    (hnd : (strs.map (c.hash "sha-256")).Nodup)
+    (hj : '~' ∉ jwt.toList) :
+    ∃ ps, Holder.verify (c.rt decodeClaims jwtDecode kbDecode) (assemble jwt strs) =
+        .ok (header, expectedClaims ms cnf, ps) ∧
+      (ps.map (fun e => (e.1, e.2.digest))).Perm (Tn.paths "") :=
+  holder_verify_issued_wire c salt decodeClaims jwtDecode kbDecode paths addr ms Tn ds decoys cnf jwt
+    header strs wf hplain hk1 hk2 hp h hne hdec hX hsig hc hperm hnd hj
